@@ -267,6 +267,23 @@ func init() {
 						}
 					})
 				}, Eval: evalC04},
+			{Name: "long-inputs", Space: "every 25th base vector followed / preceded by 70 000 and 1 100 000 bytes of text (detection must not depend on input size)", Share: 1,
+				Run: func(w *fw.W) {
+					w.Each(len(base)/25+1, func(i int) {
+						if i*25 >= len(base) {
+							return
+						}
+						v := base[i*25]
+						for _, n := range []int{70000, 1100000} {
+							w.Item(v.s+">"+strings.Repeat("a", n), v.fam+" padded-after")
+							if !v.attr {
+								w.Item(strings.Repeat("a ", n/2)+v.s, v.fam+" padded-before")
+							}
+						}
+					})
+				}, Eval: evalC04},
+			{Name: "length-boundaries", Space: "black names NUL-padded with 0..64 NULs, URL values with 0..1000 junk bytes / zero digits before the scheme", Share: 1,
+				Run: func(w *fw.W) { l := lenFamilyHTML(); w.Each(len(l), func(i int) { w.Item(l[i], "length-boundary") }) }, Eval: evalC04},
 		},
 	})
 }
